@@ -117,7 +117,7 @@ func c19Graphs(run *common.Run, sub string, progs []*sched.Program, start time.T
 			c19Record(run, res)
 			if res.Violation != nil {
 				once.Do(func() {
-					res.Violation.What += fmt.Sprintf(" [found %.1fs into the run]", time.Since(start).Seconds())
+					res.Violation.FoundAt = time.Since(start).Seconds()
 					run.Violation(sub, pi, res.Violation.What, res.Violation)
 				})
 				return
